@@ -309,40 +309,37 @@ theorem leaf_ty_hasId_uid (k : ItemKind) (g : GTy) (h : g = GTy.mk' types k.ty) 
     g.uid = types.uid := by
   subst h; simp only [GTy.mk'] at hid ⊢; simp [hid]
 
-/-- the export exists in the target: the trees must be equal, the target keeps its export -/
-theorem keepExport_spec {s : AggState} {F : Forest} (hT : TState W e s F) {ti : Interface}
-    (hti : s.agg.types.interfaces[e]? = some ti) {n : Str} {tk : ItemKind} (hsome : amGet ti.exports n = some tk)
+/-- the export exists in the target and both kinds are leaf kinds: the trees must be equal, the
+target keeps its export (stated without reference to the shape of the other exports) -/
+theorem keepExport_core {s : AggState} {F : Forest} (hA : AInv W s) (hnd : F.namesDistinct = true) {ti : Interface}
+    {m : Nat} (hm : unfoldItems (s.agg.types.unfoldKind m) ti.exports = some F)
+    {n : Str} {tk : ItemKind} (hsome : amGet ti.exports n = some tk) (ltk : LeafK tk)
     {sk : ItemKind} (lk : LeafK sk) {ts : Tree} (hts : types.unfoldKind types.fuel sk = some ts)
     (htsnd : ts.namesDistinct = true) :
     ∃ r c', chkSubtype types sk s.agg.types tk s = .ok (r, { s with chk := c' }) ∧ F.hasName n = true ∧
       (r = .ok → MStep types.uid e s (keepState s c' (GTy.mk' types sk.ty) tk.ty) ∧
-        TState W e (keepState s c' (GTy.mk' types sk.ty) tk.ty) F ∧ ∀ tf, F.get n = some tf → tf = ts) ∧
+        AInv W (keepState s c' (GTy.mk' types sk.ty) tk.ty) ∧ ∀ tf, F.get n = some tf → tf = ts) ∧
       (r ≠ .ok → ∃ m, chkSubtypeQ s.agg.types tk types sk { s with chk := c' } = .error (.err m)) ∧
       ∃ tf, F.get n = some tf ∧ (r = .ok ↔ ts = tf) := by
-  obtain ⟨ti', hti', hflat⟩ := hT.itf
-  rw [hti] at hti'; cases hti'
-  obtain ⟨m, hm⟩ := hflat.unf
-  have hmem : (n, tk) ∈ ti.exports := alGet_mem _ _ _ (by rw [← amGet_eq_alGet]; exact hsome)
-  have ltk : LeafK tk := hflat.leaf _ hmem
   obtain ⟨tf, htf, hFn⟩ := (unfoldItems_get ti.exports F n hm).2 tk (by rw [← amGet_eq_alGet]; exact hsome)
   have hhas : F.hasName n = true := Forest.get_hasName hFn
-  have htfnd : tf.namesDistinct = true := Forest.nd_get F n tf hT.nd hFn
+  have htfnd : tf.namesDistinct = true := Forest.nd_get F n tf hnd hFn
   have hT_fuel : ∀ N, s.agg.types.fuel ≤ N → s.agg.types.unfoldKind N tk = some tf := fun N hN =>
-    hT.ainv.rinv.closed.leaf_fuel ltk htf (Nat.le_trans (Types.fuel_ge _) hN)
+    hA.rinv.closed.leaf_fuel ltk htf (Nat.le_trans (Types.fuel_ge _) hN)
   have hC_fuel : ∀ N, types.fuel ≤ N → types.unfoldKind N sk = some ts := fun N hN => unfoldKind_mono _ hN _ _ hts
   -- both trees are resource-free leaf trees: the checker's relation is equality
   have hrs : ts.resourceFree = true := rf_unfoldLeaf hs.nores lk hts
-  have hrf : tf.resourceFree = true := rf_unfoldLeaf hT.ainv.nores ltk htf
+  have hrf : tf.resourceFree = true := rf_unfoldLeaf hA.nores ltk htf
   have heqs : isEqKind ts = true := eqKind_unfoldLeaf lk hts
   have heqf : isEqKind tf = true := eqKind_unfoldLeaf ltk htf
-  obtain ⟨r, c', hr, hiff, hnp, hc'⟩ := chkSubtype_leaf s hT.ainv.cinv types s.agg.types (.inl hW) (.inr rfl) sk tk lk ltk
+  obtain ⟨r, c', hr, hiff, hnp, hc'⟩ := chkSubtype_leaf s hA.cinv types s.agg.types (.inl hW) (.inr rfl) sk tk lk ltk
     ts tf (hC_fuel _ (by simp [checkFuel])) (hT_fuel _ (by simp [checkFuel])) htsnd htfnd
   rw [subNames_leaf_eq heqs hrs hrf] at hiff
   refine ⟨r, c', hr, hhas, ?_, ?_, ⟨tf, hFn, hiff⟩⟩
   · intro hok
     have hEq : ts = tf := hiff.1 hok
     subst hEq
-    refine ⟨?_, ⟨?_, ⟨ti, hti, hflat⟩, hT.nd⟩, ?_⟩
+    refine ⟨?_, ?_, ?_⟩
     · refine ⟨Ext.refl _, rfl, fun _ _ => rfl, rfl, rfl, rfl, rfl, rfl, rfl, ?_⟩
       intro g hid hg
       simp only [keepState, alGet_alInsert] at hg
@@ -351,10 +348,10 @@ theorem keepExport_spec {s : AggState} {F : Forest} (hT : TState W e s F) {ti : 
         exact .inr (leaf_ty_hasId_uid sk g (eq_of_beq he).symm hid)
       · exact .inl hg
     · -- AInv of the new state
-      refine ⟨⟨?_, hT.ainv.rinv.closed, ?_⟩, hc', hT.ainv.nores⟩
+      refine ⟨⟨?_, hA.rinv.closed, ?_⟩, hc', hA.nores⟩
       rotate_left
       · -- the recorded replacement has the shape of the source kind
-        refine hT.ainv.rinv.shape.insert _ _ (fun d hd => ?_) (fun f hf => ?_)
+        refine hA.rinv.shape.insert _ _ (fun d hd => ?_) (fun f hf => ?_)
         · cases sk with
           | value v =>
             cases tk with
@@ -396,7 +393,7 @@ theorem keepExport_spec {s : AggState} {F : Forest} (hT : TState W e s F) {ti : 
           | value v => simp [GTy.mk', ItemKind.ty] at hf
           | _ => cases lk
       intro C hC
-      obtain ⟨k1, k2⟩ := hT.ainv.rinv.sound C hC
+      obtain ⟨k1, k2⟩ := hA.rinv.sound C hC
       refine ⟨fun d v' hg t ht => ?_, fun f f' hg t ht => ?_⟩
       · simp only [keepState, alGet_alInsert] at hg
         split at hg
@@ -478,6 +475,25 @@ theorem keepExport_spec {s : AggState} {F : Forest} (hT : TState W e s F) {ti : 
       refine ⟨m, ?_⟩
       simp only [chkSubtypeQ, run_bind, hr2]
       rfl
+
+/-- the export exists in the target: the trees must be equal, the target keeps its export -/
+theorem keepExport_spec {s : AggState} {F : Forest} (hT : TState W e s F) {ti : Interface}
+    (hti : s.agg.types.interfaces[e]? = some ti) {n : Str} {tk : ItemKind} (hsome : amGet ti.exports n = some tk)
+    {sk : ItemKind} (lk : LeafK sk) {ts : Tree} (hts : types.unfoldKind types.fuel sk = some ts)
+    (htsnd : ts.namesDistinct = true) :
+    ∃ r c', chkSubtype types sk s.agg.types tk s = .ok (r, { s with chk := c' }) ∧ F.hasName n = true ∧
+      (r = .ok → MStep types.uid e s (keepState s c' (GTy.mk' types sk.ty) tk.ty) ∧
+        TState W e (keepState s c' (GTy.mk' types sk.ty) tk.ty) F ∧ ∀ tf, F.get n = some tf → tf = ts) ∧
+      (r ≠ .ok → ∃ m, chkSubtypeQ s.agg.types tk types sk { s with chk := c' } = .error (.err m)) ∧
+      ∃ tf, F.get n = some tf ∧ (r = .ok ↔ ts = tf) := by
+  obtain ⟨ti', hti', hflat⟩ := hT.itf
+  rw [hti] at hti'; cases hti'
+  obtain ⟨m, hm⟩ := hflat.unf
+  have ltk : LeafK tk := hflat.leaf _ (alGet_mem _ _ _ (by rw [← amGet_eq_alGet]; exact hsome))
+  obtain ⟨r, c', h1, h2, h3, h4, h5⟩ := keepExport_core hW hs (e := e) hT.ainv hT.nd hm hsome ltk lk hts htsnd
+  refine ⟨r, c', h1, h2, fun hok => ?_, h4, h5⟩
+  obtain ⟨a, b, c⟩ := h3 hok
+  exact ⟨a, ⟨b, ⟨ti, hti, hflat⟩, hT.nd⟩, c⟩
 
 /-- one iteration of the loop of `merge_interface` on flat interfaces -/
 theorem mergeExport_step (fuel : Nat) (n : Str) (sk : ItemKind) (s0 s1 : AggState) (F0 : Forest) (ts : Tree)
